@@ -57,7 +57,9 @@ def run(ctx):
                 "cli_secrets_refused", "outbound_https_only", "lenient_follows_http", "tls_off_network_disabled", "refusals_independent",
                 "fact_default_strict", "fact_parse_public_url", "fact_reserved_lists", "fact_moved_keys", "fact_secret_flag_rule",
                 "fact_engine_conditions", "fact_http_client", "fact_iam_strictmode", "fact_iam_method_inventory", "iam_calls_strict", "fact_client_strict_unconditional", "fact_outbound_inventory", "fact_iam_call_sites", "fact_misc_sites", "fact_filter_and_validator_comparisons", "remote_contexts_exact", "remote_context_prefix_witness", "dummy_any_spelling", "fact_redirect_check_reads_global", "early_client_strict", "iam_endpoints_strict", "iam_endpoint_witness", "fact_engine_order", "fact_secret_flags", "fact_flags_resolved", "fact_redacted_keys",
-                "fact_response_cap", "response_cap_exact", "response_never_truncated", "reader_limit_witness", "do_bytes_refines", "do_body_bounded", "outbound_https_only_bytes"]
+                "fact_response_cap", "response_cap_exact", "response_never_truncated", "reader_limit_witness", "do_bytes_refines", "do_body_bounded", "outbound_https_only_bytes",
+                "fact_config_sources", "fact_load_steps", "source_precedence", "strict_only_off_when_told", "command_line_strict_wins", "sources_to_decision",
+                "env_key_normal", "env_list_plain", "load_check_order", "load_full_refines_load"]
     for r in required:
         if not any(t.endswith("Props." + r) for t in thms):
             ctx.oblige("thm-present:" + r, False, "theorem missing or its module does not build")
@@ -100,6 +102,7 @@ def run(ctx):
     # ---------- direct property oracle on the implementation's own outputs
     best, viol = {}, 0
     feats_default = [0, 0]
+    feats_src = [0, 0]
     tags, outcomes = Counter(), Counter()
     distinct = set()
     product_rows = set()
@@ -255,6 +258,41 @@ def run(ctx):
                 violation("outbound-non-https:" + op.get("ctor", "") + (":built-before-strict" if op.get("late") else ""), f"strict {op.get('ctor')} client made requests {reqs}", opl)
             if not strict and m.group(2).startswith("refuse:") and "too-many" not in m.group(2):
                 violation("lenient-refused:outbound", f"lenient {op.get('ctor')} client refused: {line}", opl)
+        elif kind == "src":
+            # where the options come from: strict by default, command line > environment > file (judged on the REAL loader's result)
+            key, cli, env, fv = op.get("key"), op.get("cli", ""), op.get("env") or [], op.get("fileval")
+            outcomes["src " + key + " " + ("refuse" if "refuse" in line else line.split("=", 1)[1][:5] if key == "strictmode" else "value")
+                     + (" +configure" if op.get("configure") else "")] += 1
+            distinct.add(("src", key, cli, tuple(map(tuple, env)), fv))
+            feats_src[0] += 1
+            if key != "strictmode":
+                if cli and not line.endswith("=" + (cli.split("=", 1)[1].encode().hex() if key == "url" else "[" + "|".join(x.encode().hex() for x in cli.split("=", 1)[1].split(",")) + "]")):
+                    violation("source-precedence:cli-lost:" + key, f"{cli} on the command line, loader says {line}", opl)
+                continue
+            T, F = {"1", "t", "T", "TRUE", "true", "True"}, {"0", "f", "F", "FALSE", "false", "False", ""}
+            named = [v for n, v in env if n.startswith("NUTS_") and n.upper() == "NUTS_STRICTMODE"]
+            cli_v = None if not cli else (cli.split("=", 1)[1] if "=" in cli else "true")
+            says_false = (cli_v in F and cli_v is not None) or any(v.strip() in F for v in named) or fv == "false"
+            m = re.fullmatch(r"src strictmode=(true|false)(?: start=(\S+))?", line)
+            if not m:
+                if not (line == "src refuse:unmarshal" and cli_v is None and named and named[-1].strip() not in T | F):
+                    violation("source-load-refused", f"loading strictmode from file={fv} env={env} cli={cli!r}: {line}", opl)
+                continue
+            feats_src[1] += 1 if m.group(2) else 0
+            strict_res = m.group(1) == "true"
+            if not strict_res and not says_false:
+                violation("strict-off-without-source", f"no source switches strict mode off (file={fv} env={env} cli={cli!r}) but the loaded configuration has strictmode=false", opl)
+            if not strict_res and cli_v in T:
+                violation("strict-lost:cli-overridden", f"{cli} on the command line but strictmode=false (file={fv} env={env})", opl)
+            if not strict_res and cli_v is None and named and named[-1].strip() in T and len(set(v.strip() in T for v in named)) == 1:
+                violation("strict-lost:env-overridden", f"environment {env} says strict but strictmode=false (file={fv})", opl)
+            if strict_res and cli_v is not None and cli_v in F:
+                violation("source-precedence:cli-lost:strictmode", f"{cli} on the command line but strictmode=true", opl)
+            if m.group(2):
+                if strict_res and m.group(2) == "ok":
+                    violation("strict-accepted:url-not-https:via-sources", f"strict mode resolved ON from file={fv} env={env} cli={cli!r} but the node started with a plain-http public URL", opl)
+                if not strict_res and m.group(2) != "ok":
+                    violation("lenient-refused:via-sources", f"strict mode resolved OFF but the node refused: {line}", opl)
         elif kind == "cap":
             # the documented 1 MiB response cap, judged on what the caller of the REAL Do got to read
             n, cap = op.get("body", 0), 1024 * 1024
@@ -286,6 +324,7 @@ def run(ctx):
         ctx.oblige("facts:registered-flags=serverConfigFlags()", sorted(ff) == sorted(set(flag_names)),
                    f"only in facts: {sorted(set(ff) - set(flag_names))[:6]}; only in the binary: {sorted(set(flag_names) - set(ff))[:6]}")
         ctx.oblige("iam-matrix-run", feats_default[1] >= 12 * 9, f"{feats_default[1]} (method, endpoint) calls of the IAM client")
+        ctx.oblige("source-rows-run", feats_src[0] >= 100 and feats_src[1] >= 15, f"{feats_src[0]} source combinations, {feats_src[1]} continued into Configure")
         capn = feats_default[2:]
         ctx.oblige("response-cap-rows-run", any(n == 1024 * 1024 for n in capn) and any(n == 1024 * 1024 + 1 for n in capn) and len(capn) >= 30,
                    f"{len(capn)} response-cap cases (sizes incl. exactly 1 MiB and 1 MiB + 1)")
